@@ -404,6 +404,13 @@ func (c *Compiler) compileStatement(stmt ast.Statement) error {
 
 // compileAssignStatement compiles variable assignment
 func (c *Compiler) compileAssignStatement(stmt *ast.AssignStatement) error {
+	// `$ obj.field = value` assigns a field of an existing object. The VM has
+	// no instruction for that; compiling it as a variable named "obj.field"
+	// would silently leave the object as it was. Like element assignment it
+	// is reported as unsupported, so that the program runs interpreted.
+	if strings.Contains(stmt.Target, ".") {
+		return fmt.Errorf("unsupported statement type: field assignment (%s)", stmt.Target)
+	}
 	// Check for redeclaration in current scope (issue #70)
 	// Variables declared with $ cannot be redeclared in the same scope
 	// Built-in variables (query, input, ws, auth) can be shadowed by user declarations
